@@ -48,6 +48,11 @@ def apply_rewrites(text, rewrites, log, where):
             log.append({"item": where, "rule": rw.rule, "old_pattern": rw.old, "new_template": rw.new if isinstance(rw.new, str) else (rw.new.__doc__ or "computed"), "count": rw.count, "why": rw.why})
             continue
         n = text.count(rw.old)
+        if rw.count is None:
+            if n:
+                text = text.replace(rw.old, rw.new)
+                log.append({"item": where, "rule": rw.rule, "old": rw.old, "new": rw.new, "count": n, "why": rw.why})
+            continue
         if n != rw.count:
             raise Undecided("%s: rewrite anchor %r found %d times, expected %d" % (where, rw.old, n, rw.count))
         text = text.replace(rw.old, rw.new)
@@ -676,6 +681,9 @@ def gen_fn(fn, g, probe_labels, unit_name):
         if fn.impl is None or " for " not in fn.impl else sig
     if fn.ret:
         sig_new = name_return(sig_new, fn.ret, where)
+    if fn.impl and " for " in fn.impl and fn.impl_header and " for " not in fn.impl_header:
+        g.rewrites.append({"item": where, "rule": "R38", "old": "impl " + fn.impl, "new": "impl " + fn.impl_header,
+                           "why": "a trait-impl method is checked as an inherent method of the implementing type (Verus allows no `requires` on trait impls); signature and body unchanged, dynamic dispatch not modelled"})
     out = []   # list of (line, region-info or None)
     for a in fn.attrs:
         out.append((a, None))
